@@ -64,6 +64,8 @@ def register_digest(ex, content, outs):
     if len(outs) < 16:
         return
     reg = ex.pstate.setdefault('digests', [])
+    if not isinstance(outs[0], int):
+        ex.pstate.setdefault('digest_of', {})[outs[0].get_id()] = content
     d = z3.Concat(*[tobv(o, 8) for o in outs[:16]])
     for (c2, d2) in reg:
         ce = _content_eq(content, c2)
